@@ -22,7 +22,7 @@ def run(chk):
         jobs = [("q251-%d" % i, ["-q", "251", "-n", "300", "-ops", "6", "-parties", "5"]) for i in range(4)] + \
                [("q45971-%d" % i, ["-q", "45971", "-n", "300", "-ops", "6", "-parties", "5"]) for i in range(4)] + \
                [("q11-%d" % i, ["-q", "11", "-n", "300", "-ops", "5", "-parties", "4"]) for i in range(2)] + \
-               [("q7", ["-q", "7", "-n", "300", "-ops", "5", "-parties", "3"])]
+               [("q23", ["-q", "23", "-n", "300", "-ops", "5", "-parties", "3"])]
         mcs = [("KeyLifecycleMC_quick.cfg", 4), ("KeyLifecycleMC_ops3.cfg", 6), ("KeyLifecycleMC_rand.cfg", 6)]
     return lc.run(chk, jobs, mcs, ["redistR3"],
                   "a trace = one seeded history on the real code; counted non-trivial = completed redistributions (refresh / recover / new structure, "
